@@ -13,6 +13,7 @@ Abstract instance (all magnitudes SI, as exact Fractions or strings accepted by 
   units : None (SI presentation) or a random.Random used to pick a unit for every input quantity
 """
 from __future__ import annotations
+import os
 import math
 from fractions import Fraction
 from . import spectab
@@ -282,7 +283,8 @@ def make_traced(pt, holder):
 
         def get_value(self, unit=None):
             v = self.inner.get_value(unit) if unit is not None else self.inner.get_value()
-            holder['events']['sensor'].append({'at': len(pt.time), 'ret': si_of(v, self.kind) if unit is None else num_s(v)})
+            holder['events']['sensor'].append({'at': len(pt.time), 'ret': si_of(v, self.kind) if unit is None else num_s(v),
+                                               'unit': str(getattr(v, 'unit', ''))})
             return v
 
     class TracedPWMControl(PWMControl):
@@ -345,11 +347,31 @@ def make_stop(b, s, holder):
     inner = {'enc': AbsoluteRotaryEncoder, 'tach': Tachometer, 'amp': Amperometer}[s['sensor']](objs[s['el']])
     op = {'gt': StopCondition.greater_than, 'ge': StopCondition.greater_than_or_equal_to, 'eq': StopCondition.equal_to,
           'lt': StopCondition.less_than, 'le': StopCondition.less_than_or_equal_to}[s['op']]
-    thr = q(kind, s['thr'])
+    thr = q(kind, s['thr'], s.get('thr_unit'))
     if b.get('numpy'):
         import numpy as np
         thr = type(thr)(np.float64(thr.value), thr.unit)        # a threshold taken from a numpy array
-    return StopCondition(sensor=TracedSensor(inner, kind), threshold=thr, operator=op), si_of(thr, kind)
+    return StopCondition(sensor=TracedSensor(inner, kind), threshold=thr, operator=op), si_of(thr, kind), thr
+
+
+def _tables_never_fail(pt):
+    """C17's consequence, observed after every run that returned: a snapshot at the first, at the last and between the last two
+    recorded instants, and an export of all histories, must not raise (sensor / rule events of these calls are not logged)"""
+    import contextlib, io, shutil, tempfile
+    from gearpy.units import Time
+    errs = []
+    t0, t1, t2 = pt.time[0], pt.time[-1], pt.time[-2]
+    mid = Time((t1.to('sec').value + t2.to('sec').value) / 2, 'sec')
+    for tq in (t1, t0, mid):
+        with contextlib.redirect_stdout(io.StringIO()):
+            _, e = outcome(lambda: pt.snapshot(target_time=tq, print_data=False))
+        errs.append(e or '')
+    d = tempfile.mkdtemp(prefix='verif-c17-')
+    try:
+        _, e = outcome(lambda: pt.export_time_variables(folder_path=os.path.join(d, 'out')))
+    finally:
+        shutil.rmtree(d, ignore_errors=True)
+    return {'snap': errs, 'export': e or ''}
 
 
 class RunawayRun(Exception):
@@ -445,19 +467,22 @@ def execute(tid, inst, rnd=None):
                     else:
                         ctl_cache[op['ctrl']] = make_control(b, inst['ctrls'][op['ctrl']], holder)
                 ctl = ctl_cache[op['ctrl']]
-            stop, thr = None, N
+            stop, thr, thr_unit = None, N, ''
             if op.get('stop') is not None:
                 if op['stop'] not in stop_cache:
-                    stop_cache[op['stop']] = make_stop(b, inst['stops'][op['stop']], holder)
-                stop, thr = stop_cache[op['stop']]
+                    st, th, thq = make_stop(b, inst['stops'][op['stop']], holder)
+                    stop_cache[op['stop']] = (st, th, str(thq.unit))         # (the unit the threshold was GIVEN in)
+                stop, thr, thr_unit = stop_cache[op['stop']]
             rec.update(sid=op['sid'], dt=si_of(dt, 'Time'), T=si_of(T, 'Time'), dt_unit=dt.unit, T_unit=T.unit,
-                       ctrl=0 if op.get('ctrl') is None else op['ctrl'] + 1, stop=0 if op.get('stop') is None else op['stop'] + 1, thr=thr,
+                       ctrl=0 if op.get('ctrl') is None else op['ctrl'] + 1, stop=0 if op.get('stop') is None else op['stop'] + 1, thr=thr, thr_unit=thr_unit,
                        pwm_before=num_s(objs[0].pwm), tq_before=si_of(objs[0].torque, 'Torque') if objs[0].torque is not None else N,
                        first=len(pt.time) + 1, epoch=len(epochs) + 1, pre_live=live_attrs(objs))
             _, err = outcome(lambda: _bounded(lambda: solvers[op['sid']].run(dt, T, motor_control=ctl, stop_condition=stop), pt, op))
             rec.update(outcome='ok' if err is None else err, last=len(pt.time), load=list(b['calls']), elems=elems_now(),
                        rule=events['rule'], control=events['control'], sensor=events['sensor'],
                        live=live_attrs(objs), lens=hist_lens(pt))
+            if err is None and len(pt.time) >= 2:
+                rec.update(_tables_never_fail(pt))
         elif k == 'reset':
             close_epoch()
             _, err = outcome(pt.reset)
